@@ -35,7 +35,7 @@
    see docs/C03.md. *)
 From Coq Require Import List ZArith Bool Arith.
 From SC Require Import Base.Res Base.PyList Inst.Heap Inst.ClassTable Inst.Model Inst.TypeProofs Inst.TypeCopy
-  Inst.OwnProofs Inst.OwnProofs2 Inst.OwnProofs3.
+  Inst.OwnProofs Inst.OwnProofs2 Inst.OwnProofs3 Inst.OwnColl.
 Import ListNotations.
 Open Scope nat_scope.
 
@@ -344,69 +344,101 @@ Theorem C03_mutate_value_quiet :
     T (IF ct F) (exec ct fuel (KMutateValue m)) (fun r h => IF ct F h /\ mv_res m r h) (IF ct F).
 Proof. exact exec_mv_quiet. Qed.
 
-(* whole operations on leaf list attributes (List[scalar], no preparers), tables without
-   invalidated_by, argument not referenced by anybody (args_fresh): conforming or not,
-   normalised through add_items or rejected, TypeInv /\ Owned is preserved *)
+(* Whole operations.  A LEAF COLLECTION ATTRIBUTE (leaf_coll) is annotated List[e], Set[e]
+   or Dict[k,e] with scalar k, e (int/str/bool/None, Optional/Union of those) and has no
+   _prepare_<attr> / _prepare_<item> callback; the table has no invalidated_by
+   (no_inval_table).  `loose h v`: v is not a reference, or refers to a cell nobody
+   references (args_fresh).  Conforming or not: an ill-typed container is normalised element
+   by element into a fresh collection (add_items) and rejected by the inserter; a dict for a
+   List attribute, a scalar, another instance ... are handled by the same statement. *)
 Theorem C03_setattr_preserves_owned :
   forall ct, flat_table ct -> no_inval_table ct -> forall roots x a v s,
     Inv ct (heap s) -> loose (heap s) v ->
-    (forall l, nth x roots VNone = VRef l -> recv_leaf ct l a (heap s)) ->
+    (forall l, nth x roots VNone = VRef l -> recv_leafc ct l a (heap s)) ->
     Inv ct (heap (snd (step ct roots (OpSetAttr x a v) s))).
-Proof. exact step_setattr_Inv. Qed.
+Proof. exact step_setattr_coll. Qed.
 
 Theorem C03_with_inplace_preserves_owned :
   forall ct, flat_table ct -> no_inval_table ct -> forall roots x a hh s,
     Inv ct (heap s) -> loose (heap s) (pos0 hh) -> h_inplace hh = true -> h_kw hh = None ->
-    (forall l, nth x roots VNone = VRef l -> recv_leaf ct l a (heap s)) ->
+    (forall l, nth x roots VNone = VRef l -> recv_leafc ct l a (heap s)) ->
     Inv ct (heap (snd (step ct roots (OpHelper x (HWith a) hh) s))).
-Proof. exact step_with_inplace_Inv. Qed.
+Proof. exact step_with_inplace_coll. Qed.
 
-(* the in-place element helper with_<item>(x, _index=i, _insert=b, _inplace=True) on a leaf
-   list attribute: ANY item and index (no freshness condition: the inserter checks the item
-   against a scalar annotation before it writes, so a reference is never inserted); the
-   attribute holds a list (then Owned gives only_view for the inserter write) or holds
-   nothing and has no class-level default (a fresh list is created, filled and stored) *)
+(* the in-place element helpers, three families: ANY item / key / index (no freshness
+   condition: the inserter checks the item against a scalar annotation before it writes, so
+   a reference is never inserted); the attribute holds a collection (then Owned gives
+   only_view for the inserter write) or holds nothing and has no class-level default (a
+   fresh collection is created, filled and stored) *)
 Theorem C03_with_item_inplace_preserves_owned :
   forall ct, flat_table ct -> no_inval_table ct -> forall roots x a hh s,
     h_inplace hh = true -> h_kw hh = None -> Inv ct (heap s) ->
-    (forall l, nth x roots VNone = VRef l -> recv_leaf ct l a (heap s) /\ dflt_missing ct l a (heap s)) ->
+    (forall l, nth x roots VNone = VRef l -> recv_leafc ct l a (heap s) /\ dflt_missingc ct l a (heap s)) ->
     Inv ct (heap (snd (step ct roots (OpHelper x (HWithItem a) hh) s))).
-Proof. exact step_with_item_inplace_Inv. Qed.
+Proof. exact step_with_item_inplace_coll. Qed.
 
-(* the combined statement, with the operations covered as a computable predicate
-   (owned_op3_b: assignment and with_<a>(v, _inplace=True) on leaf list attributes with a
-   fresh argument; with_<item>(.., _inplace=True) on leaf list attributes; the caller
-   building a container of scalars).  PARTIAL: the full statement quantifies over every
-   operation and every flat table. *)
+Theorem C03_without_item_inplace_preserves_owned :
+  forall ct, flat_table ct -> no_inval_table ct -> forall roots x a hh s,
+    h_inplace hh = true -> Inv ct (heap s) ->
+    (forall l, nth x roots VNone = VRef l -> recv_leafc ct l a (heap s) /\ dflt_missingc ct l a (heap s)) ->
+    Inv ct (heap (snd (step ct roots (OpHelper x (HWithoutItem a) hh) s))).
+Proof. exact step_without_item_inplace_coll. Qed.
+
+(* the combined statement, with the operations covered as a computable predicate (owned_opc_b,
+   coq/Inst/OwnColl.v: obj.a = v and with_<a>(v, _inplace=True) with a fresh argument;
+   with_<item>(.., _inplace=True) and without_<item>(.., _inplace=True) with any arguments;
+   all on leaf collection attributes of the three families; the caller building a container
+   of scalars).  PARTIAL: the full statement quantifies over every operation (constructor,
+   del, update_/transform_/reset_, copy-on-write forms) and every flat table (preparers,
+   invalidated_by, nested spec classes as elements). *)
 Theorem C03_step_preserves_owned_partial :
   forall ct roots o s,
-    flat_table ct -> no_inval_b ct = true -> owned_op3_b ct (heap s) roots o = true ->
+    flat_table ct -> no_inval_b ct = true -> owned_opc_b ct (heap s) roots o = true ->
     TypeInv ct s -> Owned ct (heap s) ->
     TypeInv ct (snd (step ct roots o s)) /\ Owned ct (heap (snd (step ct roots o s))).
-Proof. exact step_preserves_owned_partial3. Qed.
+Proof. exact step_preserves_owned_coll. Qed.
 
-(* non-vacuity: the guards hold on a concrete state, for a conforming and for an
-   ill-typed fresh list (the latter is normalised element by element and rejected),
-   and for in-place element insertion of a conforming / an ill-typed item *)
+(* non-vacuity: a table with a List[int], a List[str], a Set[int] and a Dict[str,int]
+   attribute; the guards hold; conforming and ill-typed arguments; element insertion and
+   removal in place in the three families *)
+Definition exA70 := mkattr 70 (TSet TInt) VMissing None 1 true false None None [].
+Definition exA80 := mkattr 80 (TDict TStr TInt) VMissing None 1 true false None None [].
+Definition exCT2 : ctable := [mkcls 1 [exA1; exA50; exA60; exA70; exA80] false false None [1] 1 [] None None].
+Definition exH2 : list obj :=
+  [OInst 1 [(1, VInt 3%Z); (50, VRef 1); (70, VRef 2); (80, VRef 3)];
+   OList [VInt 1%Z]; OSet [VInt 4%Z]; ODict [(VStr 1%Z, VInt 2%Z)];
+   OList [VInt 5%Z]; OList [VStr 5%Z]; OSet [VInt 6%Z]; ODict [(VInt 1%Z, VInt 2%Z)]].
+Definition exRun2 (o : op) := step exCT2 [VRef 0] o (mkst exH2 0 None).
+Definition exGood (o : op) : bool :=
+  owned_opc_b exCT2 exH2 [VRef 0] o && owned_b exCT2 (heap (snd (exRun2 o))) && ti_b exCT2 (heap (snd (exRun2 o))).
+
 Example C03_owned_guards_hold :
-  let h := exH ++ [OList [VInt 5%Z]; OList [VStr 5%Z]] in
-  no_inval_b exCT = true /\ owned_b exCT h = true /\ ti_b exCT h = true /\
-  owned_op3_b exCT h [VRef 0] (OpSetAttr 0 50 (VRef 2)) = true /\
-  owned_op3_b exCT h [VRef 0] (OpSetAttr 0 50 (VRef 3)) = true /\
-  owned_op3_b exCT h [VRef 0] (OpHelper 0 (HWith 50) (exArgs [VRef 2] true)) = true /\
-  owned_op3_b exCT h [VRef 0] (OpHelper 0 (HWithItem 50) (exArgs [VInt 7%Z] true)) = true /\
-  owned_op3_b exCT h [VRef 0] (OpHelper 0 (HWithItem 60) (exArgs [VRef 3] true)) = true /\
-  (let r := step exCT [VRef 0] (OpSetAttr 0 50 (VRef 2)) (mkst h 0 None) in
-   fst r = Ok VNone /\ owned_b exCT (heap (snd r)) = true /\ ti_b exCT (heap (snd r)) = true) /\
-  (let r := step exCT [VRef 0] (OpSetAttr 0 50 (VRef 3)) (mkst h 0 None) in
-   fst r = Err ValueErr /\ owned_b exCT (heap (snd r)) = true /\ ti_b exCT (heap (snd r)) = true) /\
-  (let r := step exCT [VRef 0] (OpHelper 0 (HWithItem 50) (exArgs [VInt 7%Z] true)) (mkst h 0 None) in
-   fst r = Ok (VRef 0) /\ nth_error (heap (snd r)) 1 = Some (OList [VInt 1%Z; VInt 7%Z]) /\
-   owned_b exCT (heap (snd r)) = true /\ ti_b exCT (heap (snd r)) = true) /\
-  (let r := step exCT [VRef 0] (OpHelper 0 (HWithItem 60) (exArgs [VStr 7%Z] true)) (mkst h 0 None) in
-   fst r = Ok (VRef 0) /\ owned_b exCT (heap (snd r)) = true /\ ti_b exCT (heap (snd r)) = true) /\
+  no_inval_b exCT2 = true /\ owned_b exCT2 exH2 = true /\ ti_b exCT2 exH2 = true /\
+  (* assignments: conforming list, ill-typed list (rejected), set, ill-keyed dict (rejected) *)
+  exGood (OpSetAttr 0 50 (VRef 4)) = true /\ fst (exRun2 (OpSetAttr 0 50 (VRef 4))) = Ok VNone /\
+  exGood (OpSetAttr 0 50 (VRef 5)) = true /\ fst (exRun2 (OpSetAttr 0 50 (VRef 5))) = Err ValueErr /\
+  exGood (OpSetAttr 0 70 (VRef 6)) = true /\ fst (exRun2 (OpSetAttr 0 70 (VRef 6))) = Ok VNone /\
+  exGood (OpSetAttr 0 80 (VRef 7)) = true /\ fst (exRun2 (OpSetAttr 0 80 (VRef 7))) = Err ValueErr /\
+  exGood (OpHelper 0 (HWith 50) (exArgs [VRef 4] true)) = true /\
+  (* element helpers in place *)
+  exGood (OpHelper 0 (HWithItem 50) (exArgs [VInt 7%Z] true)) = true /\
+  nth_error (heap (snd (exRun2 (OpHelper 0 (HWithItem 50) (exArgs [VInt 7%Z] true))))) 1
+    = Some (OList [VInt 1%Z; VInt 7%Z]) /\
+  exGood (OpHelper 0 (HWithItem 50) (exArgs [VStr 7%Z] true)) = true /\
+  fst (exRun2 (OpHelper 0 (HWithItem 50) (exArgs [VStr 7%Z] true))) = Err ValueErr /\
+  exGood (OpHelper 0 (HWithItem 60) (exArgs [VStr 7%Z] true)) = true /\
+  exGood (OpHelper 0 (HWithItem 70) (exArgs [VInt 9%Z] true)) = true /\
+  nth_error (heap (snd (exRun2 (OpHelper 0 (HWithItem 70) (exArgs [VInt 9%Z] true))))) 2
+    = Some (OSet [VInt 4%Z; VInt 9%Z]) /\
+  exGood (OpHelper 0 (HWithItem 80) (exArgs [VStr 5%Z; VInt 6%Z] true)) = true /\
+  nth_error (heap (snd (exRun2 (OpHelper 0 (HWithItem 80) (exArgs [VStr 5%Z; VInt 6%Z] true))))) 3
+    = Some (ODict [(VStr 1%Z, VInt 2%Z); (VStr 5%Z, VInt 6%Z)]) /\
+  exGood (OpHelper 0 (HWithoutItem 50) (exArgs [VInt 1%Z] true)) = true /\
+  nth_error (heap (snd (exRun2 (OpHelper 0 (HWithoutItem 50) (exArgs [VInt 1%Z] true))))) 1 = Some (OList []) /\
+  exGood (OpHelper 0 (HWithoutItem 70) (exArgs [VInt 4%Z] true)) = true /\
+  exGood (OpHelper 0 (HWithoutItem 80) (exArgs [VStr 1%Z] true)) = true /\
   (* the aliasing assignment of the counterexample is NOT covered: the argument is referenced *)
-  owned_op3_b exCT [OInst 1 [(1, VInt 3%Z); (50, VRef 1)]; OList []] [VRef 0] (OpSetAttr 0 60 (VRef 1)) = false.
+  owned_opc_b exCT [OInst 1 [(1, VInt 3%Z); (50, VRef 1)]; OList []] [VRef 0] (OpSetAttr 0 60 (VRef 1)) = false.
 Proof. vm_compute. repeat split. Qed.
 
 Print Assumptions C03_checked_before_stored.
@@ -446,5 +478,6 @@ Print Assumptions C03_mutate_value_quiet.
 Print Assumptions C03_setattr_preserves_owned.
 Print Assumptions C03_with_inplace_preserves_owned.
 Print Assumptions C03_with_item_inplace_preserves_owned.
+Print Assumptions C03_without_item_inplace_preserves_owned.
 Print Assumptions C03_step_preserves_owned_partial.
 Print Assumptions C03_owned_guards_hold.
